@@ -192,6 +192,8 @@ Section Ext.
     - inversion Hs; subst s. cbn [SerdeSchema.leaf_of_str]. now rewrite Hw.
     - inversion Hs; subst s. cbn [SerdeSchema.leaf_of_str]. destruct (ext_of_str id (ext_str id b)) as [b'|]; [|discriminate].
       apply bytes_eqb_eq in Hw. now subst.
+    - rewrite Hs in Hw. cbn [SerdeSchema.leaf_of_str]. destruct (name_index s names 0) as [j|]; [|discriminate].
+      apply N.eqb_eq in Hw. now subst.
   Qed.
 
   Lemma mapM_bytes b : bytes_val_okb b = true ->
@@ -217,6 +219,7 @@ Section Ext.
     - now apply S.
     - reflexivity.
     - now apply S.
+    - destruct (nth_error names (N.to_nat n)) as [s|] eqn:En; [|discriminate]. now apply S.
   Qed.
 
   (* ---------- reading back what was written ---------- *)
